@@ -33,71 +33,55 @@ theorem extractComponents_surj (sizes cs : List Nat) (hbox : InBox sizes cs) :
 
 theorem jthCombination_range (l n j : Nat) (hn : 0 < n) :
     ∃ w, jthCombination l n j = .ok w ∧ IsWord n l w := by
-  refine ⟨_, jthCombination_ok l n j hn, ?_, ?_⟩
-  · simp [digitsLsb_length]
-  · intro x hx
-    exact digitsLsb_lt n l j hn x (List.mem_reverse.mp hx)
+  exact jthCombination_range' l n j hn
 
 theorem jthCombination_inj (l n j₁ j₂ : Nat) (hn : 0 < n) (h₁ : j₁ < n ^ l) (h₂ : j₂ < n ^ l)
     (h : jthCombination l n j₁ = jthCombination l n j₂) : j₁ = j₂ := by
-  rw [jthCombination_ok l n j₁ hn, jthCombination_ok l n j₂ hn] at h
-  have h' : digitsLsb n l j₁ = digitsLsb n l j₂ := List.reverse_inj.mp (Except.ok.inj h)
-  rw [← hornerN_digitsLsb n l j₁ hn h₁, ← hornerN_digitsLsb n l j₂ hn h₂, h']
+  exact jthCombination_inj' l n j₁ j₂ hn h₁ h₂ h
 
 theorem jthCombination_surj (l n : Nat) (w : List Nat) (hw : IsWord n l w) :
     ∃ j, j < n ^ l ∧ jthCombination l n j = .ok w := by
-  obtain ⟨hlen, hlt⟩ := hw
-  have hds : ∀ x ∈ w.reverse, x < n := fun x hx => hlt x (List.mem_reverse.mp hx)
-  obtain ⟨h1, h2⟩ := digitsLsb_hornerN n w.reverse hds
-  rw [List.length_reverse, hlen] at h1 h2
-  refine ⟨hornerN n w.reverse, h1, ?_⟩
-  unfold jthCombination
-  rw [h2, List.reverse_reverse]
-  have : ¬ (l > 0 ∧ n = 0) := by
-    rintro ⟨hl, rfl⟩
-    cases w with
-    | nil => simp at hlen; omega
-    | cons x w => exact absurd (hlt x (by simp)) (by omega)
-  simp [this]
+  exact jthCombination_surj' l n w hw
 
 /-! ### permutation prefixes: `compute_jth_permutation_prefix`, `n!/(n-m)!` of them -/
 
 theorem jthPermutationPrefix_range (n m j : Nat) (hm : m ≤ n) :
     ∃ w, jthPermutationPrefix n m j = .ok w ∧ IsPermutationPrefix n m w := by
-  sorry
+  exact jthPermutationPrefix_range' n m j hm
 
 theorem jthPermutationPrefix_inj (n m j₁ j₂ : Nat) (hm : m ≤ n)
     (h₁ : j₁ < fallingProd n m) (h₂ : j₂ < fallingProd n m)
     (h : jthPermutationPrefix n m j₁ = jthPermutationPrefix n m j₂) : j₁ = j₂ := by
-  sorry
+  exact jthPermutationPrefix_inj' n m j₁ j₂ hm h₁ h₂ h
 
 theorem jthPermutationPrefix_surj (n m : Nat) (w : List Nat) (hw : IsPermutationPrefix n m w) :
     ∃ j, j < fallingProd n m ∧ jthPermutationPrefix n m j = .ok w := by
-  sorry
+  exact jthPermutationPrefix_surj' n m w hw
 
 theorem fallingProd_eq (n m : Nat) (hm : m ≤ n) : fallingProd n m * factorial (n - m) = factorial n := by
-  sorry
+  exact fallingProd_mul_factorial n m hm
 
 /-! ### combinations without replacement: `C(n, m)` of them -/
 
 theorem nChooseM_pascal (n m : Nat) : nChooseM (n + 1) (m + 1) = nChooseM n m + nChooseM n (m + 1) := by
-  sorry
+  simp only [nChooseM_eq_choose]
+  exact Nat.choose_succ_succ n m
 
 theorem nChooseM_zero (n : Nat) : nChooseM n 0 = 1 := by
-  sorry
+  rw [nChooseM_eq_choose, Nat.choose_zero_right]
 
 theorem jthCombinationNoRepl_range (n m j : Nat) (hm : m ≤ n) (hj : j < nChooseM n m) :
     IsDecreasingCombination n m (jthCombinationNoRepl n m j) := by
-  sorry
+  exact jthCombinationNoRepl_range' n m j hm hj
 
 theorem jthCombinationNoRepl_inj (n m j₁ j₂ : Nat) (hm : m ≤ n)
     (h₁ : j₁ < nChooseM n m) (h₂ : j₂ < nChooseM n m)
     (h : jthCombinationNoRepl n m j₁ = jthCombinationNoRepl n m j₂) : j₁ = j₂ := by
-  sorry
+  exact jthCombinationNoRepl_inj' n m j₁ j₂ hm h₁ h₂ h
 
 theorem jthCombinationNoRepl_surj (n m : Nat) (w : List Nat) (hw : IsDecreasingCombination n m w) :
     ∃ j, j < nChooseM n m ∧ jthCombinationNoRepl n m j = w := by
-  sorry
+  exact jthCombinationNoRepl_surj' n m w hw
 
 /-! ### permutations of a multiset: `(Σc)!/Πc!` of them -/
 
